@@ -9,8 +9,9 @@ class P(vlib.Prop):
             "(disabled, cold, warm, --offline), with and without SOURCE_DATE_EPOCH, as tarball / OCI layout / apko lock / build --lockfile, and repeated "
             "later in time; the sha256 of every layer, config, manifest, index, SBOM, lock file, tarball and layout tree is compared with the group's "
             "reference inside Coq by the verified validator `differing`. quick: 11 builds of one configuration; thorough: 36 cells x 3 repetitions x 3 "
-            "configurations (multi-layer, single-layer, single-arch budget-1 with a service bundle). installif stage: the configuration built to trigger "
-            "finding C01-F1, repeated identical builds. canon stage: the canonicaliser, build-date, install-schedule and install_if models against the "
+            "configurations (multi-layer, single-layer, single-arch budget-1 with a service bundle). installif stage: configurations built to trigger "
+            "what was finding C01-F1 (fixed by c03e0c0): seven install_if universes (flat, chains three deep, several triggers, packages before their triggers) resolved 60/400 times in process "
+            "and 8/24 identical CLI builds of one of them - every observed install order must EQUAL the model's one order and all runs and digests must agree. canon stage: the canonicaliser, build-date, install-schedule and install_if models against the "
             "real functions (SetWorld, build.New, BuildImageFromLayers, GenerateIndex, tarfs ReadDir, groupByOriginAndSize, GetBuildDateEpoch, "
             "InstallPackages behind a server that releases packages in a scripted order, the resolver). A build case is non-trivial when it is not "
             "the reference of its group; distinct = distinct command lines / case terms.")
@@ -32,8 +33,8 @@ class P(vlib.Prop):
                   "layer groups: output independent of input order / map iteration order, sorted, same elements), c01_keyring_schedule, c01_install_schedule "
                   "(InstallPackages: same final state for EVERY completion order and interleaving), c01_bde / c01_bde_multiarch (build date is SOURCE_DATE_EPOCH "
                   "or the order-independent maximum) are proved for all inputs about executable models whose sort/set calls are re-checked in the source on every run "
-                  "(Generated/C01Calls.v, c01_source_calls_present). c01_resolve_order and c01_tarball_order are REFUTED with witnesses (findings C01-F1, C01-F2) and "
-                  "their strongest partial forms proved. pgzip thread-count independence, goroutine scheduling, umask/TMPDIR/TZ/cwd influence and byte-level cache "
+                  "(Generated/C01Calls.v, c01_source_calls_present). c01_resolve_order holds in full since fix c03e0c0 (the install_if loop walks the dependency list by index: one install order for every install_if map and "
+                  "dependency list; formerly refuted, finding C01-F1); c01_tarball_order is REFUTED with a witness (finding C01-F2) and its strongest partial form proved. pgzip thread-count independence, goroutine scheduling, umask/TMPDIR/TZ/cwd influence and byte-level cache "
                   "transparency are NOT proved: they are explored by the build matrix.")
     level_note = ("partial: proof covers the order/schedule/date logic; exploration (repeated real builds compared by sha256) covers pgzip, the scheduler, the host environment "
                   "and the cache. trusted: Coq kernel, goextract, Go harness/printer, sha256 of the harness; modelled not verified: the Go text of the modelled functions")
